@@ -493,3 +493,87 @@ func cmpDumpNode(lit interface{}, n phpast.Vertex, withTok, withPos bool, fails 
 		}
 	}
 }
+
+func init() { register("synth_pairs", opSynthPairs) }
+
+func baselineSlots(ki *kinfo, present bool) []int {
+	slots := make([]int, len(ki.fields))
+	if !present {
+		return slots
+	}
+	for j, f := range ki.fields {
+		switch f.kind {
+		case fTok, fNode, fVal:
+			slots[j] = 1
+		case fList:
+			slots[j] = 2
+		case fTokList:
+			slots[j] = 1
+		}
+	}
+	return slots
+}
+
+func printPHP(n phpast.Vertex) string {
+	var buf bytes.Buffer
+	n.Accept(printer.NewPrinter(&buf).WithState(printer.PrinterStatePHP))
+	return buf.String()
+}
+
+func isNameByte(c byte) bool {
+	return c >= 'A' && c <= 'Z' || c >= 'a' && c <= 'z' || c >= '0' && c <= '9' || c == '_' || c >= 0x80
+}
+
+// synth_pairs: printing is compositional (C15: "a change confined to one subtree changes only that subtree's portion of the output,
+// apart from a separating space"): for every ordered pair of node kinds (each all-present and all-absent) the text printed for
+// the two nodes in one statement list must be the text of the first followed by the text of the second, with at most the
+// separating space of PrinterOut.tla between two name bytes.  The printer has no other state that may leak from one node into
+// the next.  kinds: the kinds to use as the first node (all kinds are used as the second).
+func opSynthPairs(t Task) Result {
+	var firsts []string
+	for _, k := range tArr(t, "kinds") {
+		firsts = append(firsts, k.(string))
+	}
+	var all []string
+	for name := range kindByName {
+		if name != "Root" && name != "StmtInlineHtml" {
+			all = append(all, name)
+		}
+	}
+	var bad []interface{}
+	n := 0
+	single := map[string]string{}
+	key := func(k string, p bool) string { return fmt.Sprintf("%s/%v", k, p) }
+	build := func(k string, p bool) phpast.Vertex {
+		v, _ := buildSynth(k, baselineSlots(kindByName[k], p))
+		return v
+	}
+	for _, k := range all {
+		for _, p := range []bool{true, false} {
+			single[key(k, p)] = printPHP(build(k, p))
+		}
+	}
+	for _, ka := range firsts {
+		if ka == "Root" || ka == "StmtInlineHtml" {
+			continue
+		}
+		for _, pa := range []bool{true, false} {
+			for _, kb := range all {
+				for _, pb := range []bool{true, false} {
+					n++
+					a, b := single[key(ka, pa)], single[key(kb, pb)]
+					got := printPHP(&phpast.Root{Stmts: []phpast.Vertex{build(ka, pa), build(kb, pb)}})
+					want := a + b
+					if len(a) > 0 && len(b) > 0 && isNameByte(a[len(a)-1]) && isNameByte(b[0]) {
+						want = a + " " + b
+					}
+					if got != want && len(bad) < 20 {
+						bad = append(bad, map[string]interface{}{"first": ka, "first_present": pa, "second": kb, "second_present": pb,
+							"printed": got, "first_alone": a, "second_alone": b})
+					}
+				}
+			}
+		}
+	}
+	return Result{"pairs": n, "bad": bad}
+}
